@@ -106,7 +106,7 @@ def check_c03(tier, seed):
         for f in sorted(os.listdir(d)):
             ls = [l.strip() for l in open(os.path.join(d, f)) if l.strip() and not l.startswith("#")]
             scripts.append([f"variant {VARIANT}"] + [l for l in ls if not l.startswith("variant")]); ncorpus += 1
-    nrand = 2000 if tier == "quick" else 20000
+    nrand = 2000 if tier == "quick" else 60000
     for _ in range(nrand):
         scripts.append(random_dag_script(rng, 12 if tier == "quick" else 16))
     nex = 0
